@@ -1,5 +1,4 @@
 package main
 
-func genLockProg() {}
 func genSites()    {}
 func genStatus()   {}
